@@ -44,10 +44,13 @@ pub fn gen_replay(rng: &mut Rng, k: usize, o: &GenOpts) -> (Replay, Vec<String>)
     if v == (0, 0, v.2) { v = (0, 1, v.2); }
     let mut pl = vec![];
     // port subsets: walk all 16 subsets, ICs flags at random
-    let mask = if k % 3 == 0 { (k / 3) % 16 } else { (rng.next() % 16) as usize };
+    let many_frames = k % 40 == 23 && o.max_frames >= 5;
+    let mask = if many_frames { [1usize, 4, 8, 2][(k / 40) % 4] } else if k % 3 == 0 { (k / 3) % 16 } else { (rng.next() % 16) as usize };
     for p in 0..4u8 { if mask >> p & 1 == 1 { let ty = (rng.next() % 3) as u8; let ch = if rng.next() % 3 == 0 { 14 } else { (rng.next() % 26) as u8 }; pl.push((p, ty, ch)); } }
     let nslots: usize = pl.iter().map(|p| if p.2 == 14 { 2 } else { 1 }).sum();
-    let nf = (rng.next() as usize) % (o.max_frames + 1);
+    let mut nf = (rng.next() as usize) % (o.max_frames + 1);
+    // frame counts at the boundaries of 8-bit counters, and files beyond 64 KiB (few characters, to keep the file small)
+    if many_frames { nf = [255usize, 256, 257, 300][(k / 40) % 4]; }
     let dens = 2 + rng.next() % 5;
     let mut absent = vec![]; for i in 0..nf { for c in 0..nslots { if rng.next() % dens == 0 { absent.push((i, c)); } } }
     let mut r = simple(v, &pl, nf, &absent, rng);
@@ -63,7 +66,7 @@ pub fn gen_replay(rng: &mut Rng, k: usize, o: &GenOpts) -> (Replay, Vec<String>)
     if let Some(e) = r.end.as_mut() { e[0] = [0u8, 1, 2, 3, 7][(rng.next() % 5) as usize]; if e.len() >= 2 { e[1] = [255u8, 0, 1, 2, 3][(rng.next() % 5) as usize]; } if e.len() >= 6 { for j in 2..6 { e[j] = [255u8, 0, 1, 2, 3][(rng.next() % 5) as usize]; } } }
     if gte(v,3,3) && rng.next() % 2 == 0 { let nb = 1 + (rng.next() % 3) as usize; let last = match rng.next() % 6 { 0 => 512, 1 => 1, 2 => 511, _ => 1 + (rng.next() % 512) as u32 }; let actual = (nb as u32 - 1) * 512 + last; r.gecko = Some((rng.bytes(512 * nb), actual)); }
     if rng.next() % 3 == 0 { let mut m = vec![]; gen_tree(rng, 1, &mut m); r.metadata = r.metadata.map(|_| m); }
-    let tags = vec![format!("v{}.{}", v.0, v.1), format!("ports{}", pl.len()), format!("slots{}", nslots), format!("frames{}", r.frames.len().min(9)), format!("absent{}", absent.len().min(5)),
+    let tags = vec![format!("v{}.{}", v.0, v.1), format!("ports{}", pl.len()), format!("slots{}", nslots), (if r.frames.len() >= 255 { "frames255+".to_string() } else { format!("frames{}", r.frames.len().min(9)) }), format!("absent{}", absent.len().min(5)),
         format!("shape{}", shape), format!("gecko{}", r.gecko.is_some() as u8), format!("regime{}", if gte(v,3,0) { "A" } else if gte(v,2,2) { "B" } else { "C" }),
         format!("maxitems:{}", match r.frames.iter().map(|f| f.items.len()).max().unwrap_or(0) { 0..=5 => "0-5", 6..=17 => "15-17", 18..=255 => "255", _ => "256+" })];
     (r, tags)
@@ -287,6 +290,12 @@ fn ver(rng: &mut Rng, ctx: &mut Ctx) {
         for _ in 0..(rng.next() % 3) { let i = (rng.next() as usize) % (s.len() + 1); match rng.next() % 4 { 0 => { if i < s.len() { s.remove(i); } } 1 => s.insert(i, ['.', '+', '-', ' ', '0', '9', 'x'][(rng.next() % 7) as usize]), 2 => { if i < s.len() { s[i] = ['.', '5', '+'][(rng.next() % 3) as usize]; } } _ => {} } }
         strs.push(s.into_iter().collect());
     }
+    // long strings with multi-byte characters at every byte offset around typical buffer / excerpt sizes, in each component and as a
+    // fourth component; long digit runs; non-ASCII digits
+    for &at in &[7usize, 8, 15, 16, 23, 24, 31, 32, 33, 47, 48, 63, 64, 65, 79, 80, 127, 128, 255, 256] { for ch in ["é", "€", "😀", "٣"] { for shape in 0..4 {
+        let pad = |n: usize, c: char| -> String { std::iter::repeat(c).take(n).collect() };
+        strs.push(match shape { 0 => format!("{}{}", pad(at.saturating_sub(1), '9'), ch), 1 => format!("3.16.{}{}tail", pad(at.saturating_sub(6), '0'), ch), 2 => format!("1.2.3.{}{}", pad(at.saturating_sub(7), 'x'), ch), _ => format!("{}{}.0.0", pad(at.saturating_sub(2), '1'), ch) }); } } }
+    for n in [4usize, 20, 40, 100, 300] { strs.push(format!("{}.1.1", "0".repeat(n))); strs.push(format!("1.{}.1", "9".repeat(n))); strs.push(format!("{}1.2.3", "+".repeat(n.min(3)))); strs.push("1.".repeat(n)); }
     for s in strs.iter() {
         let both = std::panic::catch_unwind(|| (slippi::Version::from_str(s).map(|v| (v.0, v.1, v.2)).map_err(|_| ()), peppi::io::peppi::Version::from_str(s).map(|v| (v.0, v.1, v.2)).map_err(|_| ())));
         let (r, p) = match both { Ok(x) => x, Err(_) => { let mut c = Case::new(format!("vparse {}", hex(s.as_bytes())), "panic".into()); c.fail("C20", format!("version parser panicked on {:?}", s)); ctx.push(c); continue; } };
@@ -310,6 +319,9 @@ fn roll(rng: &mut Rng, ctx: &mut Ctx) {
         let mut ids: Vec<i32> = vec![]; let mut cur = -123i32;
         for _ in 0..len { match rng.next() % 6 { 0 => {} 1 => cur -= (rng.next() % 4) as i32, 2 => cur += (rng.next() % 5) as i32, _ => cur += 1 } if cur < -123 { cur = -123; } ids.push(cur); }
         if k % 25 == 24 && !ids.is_empty() { let i = (rng.next() as usize) % ids.len(); ids[i] = [2000, 100000, 30000][(rng.next() % 3) as usize]; }
+        // rollbacks of every depth around small-table boundaries: a run, a jump back by `d`, the window replayed (and once more for some)
+        if k % 5 == 2 { let d = [1i32, 2, 6, 7, 8, 9, 15, 16, 17, 31, 32, 33, 63, 64, 65, 127, 128, 129, 255, 256, 257][(k / 5) % 21]; let pre = (rng.next() % 4) as i32; let extra = (rng.next() % 3) as i32;
+            ids = (-123..-123 + pre + d).collect(); let top = -123 + pre + d; ids.extend(top - d..top + extra); if k % 10 == 7 { ids.extend(top - d..top - d + 1 + (rng.next() % 3) as i32); } }
         if k % 40 == 39 { ids.reverse(); }
         // the extreme id needs a 2 GiB table: only in the thorough tier
         if ctx.thorough && k == 7 { ids = vec![i32::MAX, -123, i32::MAX]; }
@@ -491,7 +503,12 @@ fn start(rng: &mut Rng, ctx: &mut Ctx) {
 pub fn gen_tree(rng: &mut Rng, depth: usize, out: &mut Vec<u8>) {
     let n = (rng.next() % 4) as usize;
     for i in 0..n {
-        let klen = (rng.next() % 4) as usize; out.push(b'U'); out.push(klen as u8 + 1); out.push(b'a' + i as u8); for _ in 0..klen { out.push(match rng.next() % 12 { 0 => 0, 1 => b' ', 2 => b'"', 3 => b'\\', _ => b'a' + (rng.next() % 26) as u8 }); }
+        match rng.next() % 16 {
+            0 => { let k = format!("{}é€😀", (b'a' + i as u8) as char); out.push(b'U'); out.push(k.len() as u8); out.extend(k.as_bytes()); } // non-ASCII key
+            1 => { out.push(b'U'); out.push(255); out.push(b'a' + i as u8); out.extend(std::iter::repeat(b'k').take(254)); }                 // longest key
+            2 => { out.push(b'U'); out.push(254); out.push(b'a' + i as u8); out.extend(std::iter::repeat(b'k').take(253)); }
+            _ => { let klen = (rng.next() % 4) as usize; out.push(b'U'); out.push(klen as u8 + 1); out.push(b'a' + i as u8); for _ in 0..klen { out.push(match rng.next() % 12 { 0 => 0, 1 => b' ', 2 => b'"', 3 => b'\\', _ => b'a' + (rng.next() % 26) as u8 }); } }
+        }
         match rng.next() % 4 {
             0 => { out.push(b'l'); let x = match rng.next() % 5 { 0 => i32::MIN, 1 => i32::MAX, 2 => -1, _ => (rng.next() >> 16) as i32 }; out.extend(x.to_be_bytes()); }
             1 => { let s: Vec<u8> = match rng.next() % 8 { 0 => vec![], 1 => "né😀".as_bytes().to_vec(), 2 => vec![b'x'; 255], 3 => b"Station 1\0\0\0".to_vec(), 4 => vec![0], 5 => "\u{feff} a\tb\r\n\u{7f}\u{10ffff} ".as_bytes().to_vec(), 6 => { let mut v: Vec<u8> = (0..(rng.next() % 9)).map(|_| (rng.next() % 128) as u8).collect(); if rng.next() % 2 == 0 { v.push(0); } v } _ => (0..(rng.next() % 9)).map(|_| 0x20 + (rng.next() % 90) as u8).collect() }; out.push(b'S'); out.push(b'U'); out.push(s.len() as u8); out.extend(s); }
